@@ -310,4 +310,9 @@ example :
     gotSummary (get exDoc [47, 97, 126, 49, 98, 47, 48, 49]) = some (-1, .EINVAL, none) := by
   refine ⟨?_, ?_, ?_, ?_, ?_, ?_, ?_⟩ <;> decide
 
+
+/-- every source fact this property's model consumes was located in the current source by tools/extract (a fact that is not
+found is emitted with a placeholder value; this obligation then fails and the check uses the reference model) -/
+theorem source_facts_located_c12 : JsonC.Generated.factsFound_ptr = true := by decide
+
 end JsonC.Pointer
